@@ -13,6 +13,7 @@ import (
 	"regexp"
 	"strings"
 	"sync"
+	"sync/atomic"
 	"time"
 
 	"github.com/gorilla/mux"
@@ -166,10 +167,61 @@ func (c20) Plan(tier string, seed int64) []core.Scenario {
 		}
 		out = append(out, core.Sc("reader").WithN("len", li).WithN("content", rng.Intn(4)).WithN("pat", rng.Intn(pCount)).WithN("order", rng.Intn(3)).WithN("conc", []int{1, 1, 4, 16}[rng.Intn(4)]).WithS("transport", []string{"http", "ws"}[rng.Intn(2)]))
 	}
+	// many small calls in quick succession from several goroutines: the upload and the RPC request of a call
+	// reach the server within microseconds of each other, and calls overlap
+	nb := 3
+	if tier == "thorough" {
+		nb = 40
+	}
+	for i := 0; i < nb; i++ {
+		out = append(out, core.Scenario{Kind: "burst", N: map[string]int{"workers": []int{8, 16, 2}[i%3], "calls": 250, "len": 3 + i%4, "content": 0, "pat": 0, "order": 0, "conc": 1}, S: map[string]string{"transport": []string{"http", "ws"}[i%2]}})
+	}
 	for i := range out {
 		out[i].Seed = seed*314606869 + int64(i)
 	}
 	return out
+}
+
+func c20Burst(sc core.Scenario, r *core.R, cl *readerClient, mu *sync.Mutex, uploadDone map[string]int) {
+	workers, calls := sc.I("workers"), sc.I("calls")
+	var wg sync.WaitGroup
+	var failed int32
+	total := int32(0)
+	for w := 0; w < workers; w++ {
+		w := w
+		wg.Add(1)
+		go func() {
+			defer wg.Done()
+			rng := core.Scenario{Seed: sc.Seed + int64(w)}.Rand()
+			for i := 0; i < calls && atomic.LoadInt32(&failed) == 0; i++ {
+				data := payload(1+rng.Intn(600), 0, rng, byte(w+1))
+				data = append(data, byte(w), byte(i), byte(i>>8))
+				sum := sha256.Sum256(data)
+				ctx, cancel := context.WithTimeout(context.Background(), core.Grace)
+				d, err := cl.Consume(ctx, bytes.NewReader(data), pReadAll, "b")
+				cancel()
+				atomic.AddInt32(&total, 1)
+				if err != nil {
+					atomic.StoreInt32(&failed, 1)
+					r.Violate("reader-call-hang", "burst (%d workers): call %d of worker %d failed / did not complete within %v: %v", workers, i, w, core.Grace, core.Trunc(err.Error(), 200))
+					return
+				}
+				if d.N != len(data) || d.Sum != hex.EncodeToString(sum[:]) {
+					atomic.StoreInt32(&failed, 1)
+					r.Violate("reader-bytes-differ", "burst (%d workers): call %d of worker %d: handler observed %d bytes sha256 %s, caller sent %d bytes sha256 %s (bytes of a concurrent call?)", workers, i, w, d.N, d.Sum[:12], len(data), hex.EncodeToString(sum[:])[:12])
+					return
+				}
+			}
+		}()
+	}
+	done := make(chan struct{})
+	go func() { wg.Wait(); close(done) }()
+	if !core.WaitCh(done, 6*core.Grace) {
+		r.Violate("reader-call-hang", "burst: workers did not finish")
+	}
+	r.Key(fmt.Sprintf("burst %s workers=%d", sc.Str("transport"), workers), true)
+	r.Obs("reader_calls", int64(atomic.LoadInt32(&total)))
+	r.Sample(map[string]interface{}{"burst": true, "workers": workers, "calls_each": calls, "transport": sc.Str("transport"), "completed": atomic.LoadInt32(&total)})
 }
 
 func payload(n, content int, rng *rand.Rand, salt byte) []byte {
@@ -271,7 +323,15 @@ func (c20) Run(sc core.Scenario) core.Result {
 		mu.Unlock()
 	}))
 	ts := httptest.NewServer(m)
-	defer ts.Close()
+	defer func() {
+		// stuck upload handlers would make Close block for ever: bound it
+		done := make(chan struct{})
+		go func() { ts.CloseClientConnections(); ts.Close(); close(done) }()
+		select {
+		case <-done:
+		case <-time.After(2 * time.Second):
+		}
+	}()
 	base := ts.Listener.Addr().String()
 	var cl readerClient
 	closer, err := jsonrpc.NewMergeClient(context.Background(), tr+"://"+base+"/rpc/v0", "R", []interface{}{&cl}, nil, httpio.ReaderParamEncoder("http://"+base+"/rpc/streams/v0/push"))
@@ -279,8 +339,19 @@ func (c20) Run(sc core.Scenario) core.Result {
 		r.Inconclusive("client: %v", err)
 		return r.Result()
 	}
-	defer closer()
+	defer func() {
+		done := make(chan struct{})
+		go func() { closer(); close(done) }()
+		select {
+		case <-done:
+		case <-time.After(2 * time.Second):
+		}
+	}()
 	rng := sc.Rand()
+	if sc.Kind == "burst" {
+		c20Burst(sc, r, &cl, &mu, uploadDone)
+		return r.Result()
+	}
 	type res struct {
 		d    Digest
 		err  error
